@@ -456,7 +456,11 @@ if __name__ == "__main__":
     # each generator is fail-closed on its own: gen/STATUS gets one line `<name> ok|failed: <reason>`; the checks of the properties that depend on
     # a table refuse to pass when its line is not ok (cli: C20; const: C05 C07 C19; dissim: C04)
     status, rc = [], 0
-    for name, f in (("cli", main), ("const", gen_consts), ("dissim", gen_dissim)):
+    sys.modules.setdefault("gen_tables", sys.modules["__main__"])
+    from gen_gamma import gen_gamma
+    from gen_kernel import gen_kernel
+    from gen_cont import gen_cont
+    for name, f in (("cli", main), ("const", gen_consts), ("dissim", gen_dissim), ("gamma", gen_gamma), ("kernel", gen_kernel), ("cont", gen_cont)):
         try:
             f()
             status.append("%s ok" % name)
